@@ -437,7 +437,7 @@ def _data_parse_csv(args, unused_options):
             continue
         if value_type(arg) != 'string':
             return None
-        lines.extend(arg.splitlines())
+        lines.extend(arg.splitlines(keepends=True))
 
     # Parse the CSV
     data = list(csv.DictReader(lines, skipinitialspace=True))
